@@ -1,5 +1,6 @@
 import Gmx.Model.ConfigAccess
 import Gmx.Model.PoolOps
+import Gmx.Model.SwapPricing
 import Gmx.Gen.Layout
 import Gmx.Driver.Util
 import Gmx.Driver.C16
@@ -25,6 +26,22 @@ def poolOp (sdk : Bool) (p : RawPool) (op : String) (a b : String) : String :=
     | some dl, some ds => showPool (checkedApplyDelta p dl ds) | _, _ => "bad-op"
   | "cancel" => showPool (if sdk then cancelSdk sdkOverridesCancelAmounts p else cancelProgram p)
   | _ => "bad-op"
+
+open Gmx.SwapPricing in
+def pKind (s : String) : Option PKind :=
+  if s = "S" then some .swap else if s = "D" then some .deposit else if s = "W" then some .withdrawal else if s = "H" then some .shift else none
+
+open Gmx.SwapPricing in
+def pStep (s : String) : Option Step :=
+  if s.endsWith "!" then (pKind (s.dropEnd 1).toString).map .failing else
+  match s.splitOn ":" with
+  | [scope, _] =>
+    if scope = "-" then some .plain else
+    match scope.splitOn ">" with
+    | [k] => (pKind k).map .scoped
+    | [k, j] => match pKind k, pKind j with | some k, some j => some (.nested k j) | _, _ => none
+    | _ => none
+  | _ => none
 
 def c40Engine (args : List String) : String :=
   match args with
@@ -66,6 +83,12 @@ def c40Engine (args : List String) : String :=
     match Flag.ofSnake? x with
     | some x => s!"ok {8 + marketConfigOffset + configFlagOffset + x.bit / 8} {2 ^ (x.bit % 8)}"
     | none => "noflag"
+  | ["hist", pos, neg, _, steps] =>
+    -- fee factors the long-lived SDK model applies at each operation step (resting kind: Swap)
+    match pNat pos, pNat neg, (steps.splitOn ",").mapM pStep with
+    | some pos, some neg, some st =>
+      "same " ++ ";".intercalate ((Gmx.SwapPricing.runHistory pos neg ⟨.swap, ()⟩ st).map fun f => s!"{f.1}/{f.2}")
+    | _, _, _ => "bad-op"
   | ["randbytes", _] => "same"
   -- actions are compared program-vs-SDK inside the harness (`actions_congruent` is why equality is expected)
   | ["action", _] => "same"
